@@ -1,13 +1,27 @@
 import os
 from engine import Query
 META = {
- 'functions': [],
- 'bounds': '',
- 'outside': '',
- 'assumptions': [],
+ 'functions': ['Digit::StringToNumber / stringToNumber (Digit.hpp:204-540)', 'Digit::parseExponent (Digit.hpp:674-723)',
+               'call sites of Digit::powerOfPositiveTen / powerOfNegativeTen (contract stubs: arguments recorded, result arbitrary)'],
+ 'bounds': 'scan: every numeral of concrete length L <= 6 (quick) / 10 (thorough) over [0-9+-.eE] plus one arbitrary unit (not x/X), 3 unit widths: '
+           'rejection, consumed length, integer results, +-0, and the (mantissa, decimal exponent) pair handed to the power kernels (exact rational '
+           'equality with the reference), out-of-range numerals (>= 2^1024) rejected or infinite. int: 19/20/21-digit integer numerals with the '
+           'leading 14-16 digits pinned to windows around 2^63, 2^64, 10^20-1 and 10^20, trailing 5 digits symbolic, with and without minus sign. '
+           'exp: 1e[-]d..d with 9, 10, 11 symbolic exponent digits (leading zeros allowed).',
+ 'outside': 'the power kernels themselves (C09 b: big-integer multiply and rounding; not attempted -- the value of a Real result is checked only up to '
+            'the kernel arguments and the sign bit), numerals longer than L, mantissas longer than 19 digits (window cut), the 0x.. hexadecimal spelling, '
+            'fully symbolic 19-21 digit numerals (Horner over 19 symbolic digits: no verdict in 200 s with sat and cvc5 bv-as-int).',
+ 'assumptions': ['reference grammar = the dialect pinned by Tests/DigitTest.hpp: [+-]?(D+(.D*)? | .D+)([eE][+-]?D+)?, leading zeros / second dot / empty exponent rejected',
+                 'rejecting numerals below 10^-324 is tolerated (documented range rejection); everything at or above 2^1024 must be rejected or infinite',
+                 'stubbed harness: counterexamples are still replayed natively (assertions that need the stub are skipped when the real kernels run)'],
 }
 PRIV = ['-Dprivate=public', '-Dprotected=public']
-STUBS = {'_ZN6Qentem5Digit18powerOfPositiveTenIyEEvRT_j': 'stub_p10pos', '_ZN6Qentem5Digit18powerOfNegativeTenIyEEvRT_j': 'stub_p10neg'}
+import engine
+# powerOfPositiveTen returns void today; the proposed overflow fix makes it return bool (different mangled name, different stub)
+_POS_BOOL = 'static bool powerOfPositiveTen' in open(os.path.join(engine.INCLUDE, 'Digit.hpp')).read()
+STUBS = {'_ZN6Qentem5Digit18powerOfNegativeTenIyEEvRT_j': 'stub_p10neg'}
+if _POS_BOOL: STUBS['_ZN6Qentem5Digit18powerOfPositiveTenIyEEbRT_j'] = 'stub_p10pos_b'
+else: STUBS['_ZN6Qentem5Digit18powerOfPositiveTenIyEEvRT_j'] = 'stub_p10pos' 
 MANUAL_KF = bool(os.environ.get('VF_KF_MANUAL'))
 def ko(only):
     return None if MANUAL_KF else only
@@ -15,7 +29,9 @@ def kf(defs, excl=(), only=None):
     """until the ids are listed in known_findings.json the defines can be forced with VF_KF_MANUAL=1 (testing only)"""
     d = dict(defs)
     if MANUAL_KF:
-        for k in excl: d['KF_EXCL_' + k.replace('-', '_')] = 1
+        skip = os.environ.get('VF_KF_SKIP', '').split(',')      # ids to treat as fixed (validating a proposed fix)
+        for k in excl:
+            if k not in skip: d['KF_EXCL_' + k.replace('-', '_')] = 1
         if only: d['KF_ONLY_' + only.replace('-', '_')] = 1
     return d
 def queries(tier):
